@@ -49,9 +49,10 @@ class StoreW(OW):
                     A_ulong(K.CKA_CLASS, K.CKO_SECRET_KEY), A_bytes(K.CKA_LABEL, objs.rnd(r, r.choice([0, 1, 3, 20, 300]))), A_bytes(K.CKA_ID, objs.rnd(r, r.choice([0, 6, 64]))), A_bytes(K.CKA_START_DATE, date(r)),
                     A_bytes(K.CKA_EC_PARAMS, bytes.fromhex(objs.POOL["ec"][0]["params"])), A_bytes(0x80000011, objs.rnd(r, r.choice([1, 8, 100])))]
             return r.sample(pool, r.randint(1, 5))
-        if kind in ("aes", "generic", "des3", "rsa_pub") and r.random() < 0.3:
+        pt = getattr(self, "template_p", 0.3)
+        if kind in ("aes", "generic", "des3", "rsa_pub") and r.random() < pt:
             ex.append([K.CKA_WRAP_TEMPLATE, "t", tmpl_entries()])
-        if kind in ("aes", "generic", "des3", "rsa_priv") and r.random() < 0.3:
+        if kind in ("aes", "generic", "des3", "rsa_priv") and r.random() < pt:
             ex.append([K.CKA_UNWRAP_TEMPLATE, "t", tmpl_entries()])
         if kind == "cert":
             if r.random() < 0.5: ex.append(A_bytes(K.CKA_ISSUER, b"\x30\x09" + objs.rnd(r, 9)))
@@ -68,6 +69,8 @@ class StoreW(OW):
         kind = kw.pop("kind", None) or r.choice(self.kinds)
         if kind in ("data", "cert") and "vlen" not in kw: kw["vlen"] = self.vlen()
         ex = self.extras(kind)
+        if kind in ("aes", "generic") and r.random() < 0.3:
+            fl_ = dict(kw.get("flags") or {}); fl_["kcv"] = True; kw["flags"] = fl_
         if r.random() < 0.15: ex.append(A_bool(K.CKA_MODIFIABLE, r.random() < 0.5))
         ref = super().s_create(tid, pid, kind=kind, extra=ex, **kw)
         if ref and ref in self.w.objs:
@@ -219,6 +222,9 @@ class StoreW(OW):
         choices = [A_bytes(K.CKA_LABEL, objs.label(o.ref, ":" + "".join(r.choice("abcdefgh") for _ in range(r.randint(1, 30)))))]
         if kind != "data": choices.append(A_bytes(K.CKA_ID, objs.rnd(r, r.choice([0, 1, 8, 40]))))
         if kind == "data": choices.append(A_bytes(K.CKA_APPLICATION, objs.rnd(r, r.choice([0, 5, 50])))); choices.append(A_bytes(K.CKA_VALUE, objs.rnd(r, self.vlen())))
+        if kind in ("aes", "generic") and self.info.get(o.ref, {}).get("secret", {}).get(K.CKA_VALUE):
+            cv = decoder.kcv(kind, self.info[o.ref]["secret"][K.CKA_VALUE])
+            if cv: choices.append(A_bytes(K.CKA_CHECK_VALUE, cv))       # writing back the correct check value
         if kind in ("aes", "generic", "des3", "rsa_priv", "ec_priv", "rsa_pub", "ec_pub"):
             choices.append(A_bytes(K.CKA_START_DATE, date(r)))
             choices.append(A_bool(K.CKA_DERIVE, r.random() < 0.5))
